@@ -11,8 +11,8 @@ Open Scope N_scope.
 (* ===== completeness: for every enabled-method list (any order, repetitions allowed), realm, nonce, user, password,
    request method and URL, the client side picks the strongest enabled scheme and its header is accepted.
    Premises: no double quote in realm / nonce / user / URL (they travel inside quoted strings), hash outputs
-   contain no double quote (they are hex), and - only when Basic is the scheme picked - no ':' in user name and
-   PASSWORD (the latter is the F9 restriction, see the _refuted theorem). ===== *)
+   contain no double quote (they are hex), and - only when Basic is the scheme picked - no ':' in the user name
+   (inherent to Basic).  The password is arbitrary (F9 fixed by /repo ebc43d3). ===== *)
 Theorem C10_auth_complete : forall (H_md5 H_sha : list N -> list N),
   (forall x, nosep DQ (H_md5 x) = true /\ nosep DQ (H_sha x) = true) ->
   forall methods realm nonce user pass method u,
@@ -26,17 +26,6 @@ Theorem C10_auth_complete : forall (H_md5 H_sha : list N -> list N),
            [add_authorization H_md5 H_sha ah user pass method (u_full u)] = true.
 Proof. exact auth_complete. Qed.
 Print Assumptions C10_auth_complete.
-
-(* F9: without the restriction on the password the statement is false: Basic only, user "u", password "a:b" *)
-Theorem C10_auth_complete_basic_refuted : forall (H_md5 H_sha : list N -> list N),
-  exists methods realm nonce user pass method u,
-    methods_ok methods = true /\ nosep DQ user = true /\ nosep COLON user = true /\
-    (let ah := challenge_of realm nonce (best_scheme (eff_methods methods)) in
-     sender_init (challenge methods realm nonce) = Some ah /\
-     verify H_md5 H_sha methods user pass realm nonce method u
-            [add_authorization H_md5 H_sha ah user pass method (u_full u)] = false).
-Proof. exact auth_complete_basic_refuted. Qed.
-Print Assumptions C10_auth_complete_basic_refuted.
 
 (* ===== soundness, part 1 (no assumption on the hashes): whatever is accepted is exactly one parseable
    Authorization value whose scheme is enabled, whose user (and, for Basic, password) equals the expected one,
@@ -84,17 +73,17 @@ Proof. exact fate_with_credentials. Qed.
 Print Assumptions C10_fate_with_credentials.
 
 Theorem C10_client_credentials_provided : forall z,
-  wf_authorization z = true -> basic_pass_ok z = true -> z_user z <> [] ->
+  wf_authorization z = true -> z_user z <> [] ->
   credentials_provided [authorization_marshal z] = true.
 Proof. exact client_credentials_provided. Qed.
 Print Assumptions C10_client_credentials_provided.
 
-(* F9 again: wrong Basic credentials whose password contains ':' do NOT end the connection *)
-Theorem C10_fate_wrong_credentials_refuted :
-  exists z methods realm nonce, wf_authorization z = true /\ z_user z <> [] /\
-    handle_auth_error methods realm nonce [authorization_marshal z] = Challenge (challenge methods realm nonce).
-Proof. exact fate_wrong_credentials_refuted. Qed.
-Print Assumptions C10_fate_wrong_credentials_refuted.
+(* every refused request that carries client-produced credentials (any password) ends the connection *)
+Theorem C10_fate_client_credentials_close : forall z methods realm nonce,
+  wf_authorization z = true -> z_user z <> [] ->
+  handle_auth_error methods realm nonce [authorization_marshal z] = CloseConn.
+Proof. exact fate_client_credentials_close. Qed.
+Print Assumptions C10_fate_client_credentials_close.
 
 (* ===== non-vacuity ===== *)
 (* the SETUP base-URL rule: for rtsp://h/p/trackID=3 the digest URIs rtsp://h/p/ and rtsp://h/p are accepted in SETUP only *)
@@ -104,6 +93,10 @@ Example C10_ex_url_rule :
   url_matches u (ntake 11 full) true = true /\ url_matches u (ntake 10 full) true = true /\
   url_matches u (ntake 11 full) false = false /\ url_matches u (u_requri u) false = true /\
   url_matches u (ntake 9 full) true = false.
+Proof. vm_compute. repeat split. Qed.
+(* regressions for F9: password "a:b" is a permitted Basic password (basic_ok), and such credentials count as provided *)
+Example C10_ex_f9 : basic_ok [117] [97; 58; 98] = true /\ wf_authorization f9_witness = true /\
+  handle_auth_error None [] [] [authorization_marshal f9_witness] = CloseConn.
 Proof. vm_compute. repeat split. Qed.
 (* methods_ok holds for the default and for every ordered subset; best_scheme picks SHA-256 when enabled *)
 Example C10_ex_methods : methods_ok None = true /\ methods_ok (Some [0; 2; 1]) = true /\ methods_ok (Some []) = false
